@@ -5,7 +5,7 @@ import Driver.Names
 import Driver.Validators
 import Driver.History
 import Driver.Config
-import Driver.Project
+import Driver.ProjectOracles
 /-! `tgdriver`: reads one JSON request per line on stdin, answers one JSON line per request. -/
 open Lean Drv
 
